@@ -128,6 +128,9 @@ func (s *NotifyFollowReader) startWatcher() (*fsnotify.Watcher, error) {
 				writeSignalNonBlock(s.eventWrite)
 			case event.Op&fsnotify.Remove != 0:
 				writeSignalNonBlock(s.eventDelete)
+			case event.Op&fsnotify.Rename != 0 && s.ReOpen:
+				// moved away (rotation by rename): for re-open follow the file is gone from the path
+				writeSignalNonBlock(s.eventDelete)
 			case event.Op&fsnotify.Create != 0:
 				writeSignalNonBlock(s.eventWrite)
 			}
